@@ -64,13 +64,31 @@ Insert(c, p, t, a) ==
     ELSE [ok |-> TRUE,  c |-> [r EXCEPT !.b[1] = SatAdd(r.b[1], a)]]
 
 (***************************************************************************)
+(* Spec change.  VelocityControl::update_spec(spec) - applied by           *)
+(* Node::new_full to the restored payment and fee controls with the         *)
+(* policy's specs, and by Node::update_velocity_controls - keeps a control   *)
+(* whose limit, bucket length and bucket count match the spec, and replaces  *)
+(* any other by a fresh, EMPTY control of the NEW spec's shape.  Hence       *)
+(*   - a restart with an unchanged policy keeps what was counted             *)
+(*     (UpdateSpec(c, p, p) = c: the Restart arm of Step), and               *)
+(*   - a history after a spec change is a history from InitState of the new  *)
+(*     spec (SpecChange): the cases of VelocityCases with `from` have the    *)
+(*     harness create and use the real control / node under another spec     *)
+(*     and then install the case's spec; the property then speaks about the  *)
+(*     approvals since the change and the windows of the NEW spec.           *)
+(***************************************************************************)
+UpdateSpec(c, old, new) == IF old = new THEN c ELSE NewCtl(new)
+SpecChange(c, old, new) == UpdateSpec(c, old, new)      \* old # new: = NewCtl(new), whatever c holds
+
+(***************************************************************************)
 (* Signer state:                                                            *)
 (*   now   the clock (last timestamp used; timestamps never decrease)       *)
 (*   pay   the payment control in memory      fee   the fee control         *)
 (*   dpay, dfee   what the persistent store holds for them                  *)
 (* Parameters P = [level, pay, fee, keep, persistFee, ns]:                      *)
 (*   level "struct"   a bare VelocityControl; Restart = serde round trip    *)
-(*                    through vls-persist's model                           *)
+(*                    through vls-persist's model (for a control of a real  *)
+(*                    interval type followed by update_spec(same spec))     *)
 (*         "approver" VelocityApprover over a refusing delegate; Restart =  *)
 (*                    get_state / load_from_state                           *)
 (*         "node"     a Node over a KVV store; Restart = restore_nodes      *)
@@ -130,7 +148,8 @@ Step(s, r, P) ==
          \* the invoices map is always restored from the store; the controls only if P.keep
          [resp |-> Resp(TRUE),
           s |-> IF P.level # "node" THEN [s EXCEPT !.now = t]
-                ELSE IF P.keep THEN [s EXCEPT !.now = t, !.pay = s.dpay, !.fee = s.dfee, !.inv = s.dinv]
+                ELSE IF P.keep THEN [s EXCEPT !.now = t, !.pay = UpdateSpec(s.dpay, P.pay, P.pay),
+                                                 !.fee = UpdateSpec(s.dfee, P.fee, P.fee), !.inv = s.dinv]
                 ELSE [s EXCEPT !.now = t, !.pay = NewCtl(P.pay), !.fee = NewCtl(P.fee), !.inv = s.dinv]]
 
 (***************************************************************************)
